@@ -4,7 +4,8 @@ from pv import obs_tables as T
 
 KEYS = ['parso.python.prefix.PrefixPart.end_pos', 'parso.python.prefix.PrefixPart.__init__',
         'parso.python.prefix.PrefixPart.create_spacing_part', 'parso.python.tokenize._close_fstring_if_necessary',
-        'parso.python.tokenize._split_illegal_unicode_name', 'parso.python.tokenize._find_fstring_string']
+        'parso.python.tokenize._split_illegal_unicode_name', 'parso.python.tokenize._find_fstring_string',
+        'parso.python.prefix.split_prefix']
 
 
 def _regex():
@@ -23,5 +24,9 @@ def run(report):
                   "in pattern order (checked structurally), group i is in L(sub-pattern i)",
                   "the tiling / balance / position invariants of tokenize_lines (DESIGN 4/C09) are not discharged deductively; "
                   "they rest on the bounded stand-in",
+                  "split_prefix tiling VC: one match of the re-lexer is described by facts imported from the RegLan obligations "
+                  "(re:prefix._regex:shape / empty-value-only-at-end / type-lookup-total); that the match succeeds at all (A-RELEX) is "
+                  "ASSUMED there -- it is exactly the refuted obligation re:prefix:relexer-total (known finding: form feed inside a "
+                  "comment), discharged only for comments without form feed; positions of the parts stay bounded",
                   "A-CHARS: z3's character sort ends at U+2FFFF")
     run_bounded(report, ['tok', 'fstr'])
